@@ -340,6 +340,17 @@ func (v *wireView) firstByte(root *ssa.Function, val ssa.Value, depth int) (*wir
 		return &wireFirst{val: k, how: fmt.Sprintf("[]byte{%d,...}", k)}, ""
 	case *ssa.Call:
 		if b, ok := y.Call.Value.(*ssa.Builtin); ok && b.Name() == "append" && len(y.Call.Args) >= 1 {
+			// onto an empty buffer (make([]byte, 0, n) / nil): the first byte is the first one appended
+			base := v.w.canon(root, y.Call.Args[0])
+			empty := isNilConst(base)
+			if ms, isMake := base.(*ssa.MakeSlice); isMake {
+				if k, isK := intConst(ms.Len); isK && k == 0 {
+					empty = true
+				}
+			}
+			if empty && len(y.Call.Args) == 2 {
+				return v.firstByte(root, y.Call.Args[1], depth+1)
+			}
 			return v.firstByte(root, y.Call.Args[0], depth+1)
 		}
 		cv := y
